@@ -233,8 +233,9 @@ theorem decodeChunk_stored (H : Bytes → Bytes) (hH : ∀ x, (H x).length = 64)
     (writer : String) (compr : Compr) (c : Bytes) (n : Nat) (hn : n ≤ 64) (d : Descr)
     (hck : d.checksum = hashTruncate (hashTruncate (H c) n) 64) (hsz : d.sourceSize = c.length) :
     decodeChunk H decomp compr d (storedBytes writer (if compr.isSome then comp else id) c) = some c := by
-  have hfin : (if hashTruncate (H c) d.checksum.length = d.checksum then some c else none) = some c := by
-    rw [if_pos]
+  have hfin : (if Gen.chunkLengthChecked = true ∧ c.length ≠ d.sourceSize then none
+      else if hashTruncate (H c) d.checksum.length = d.checksum then some c else none) = some c := by
+    rw [if_neg (fun hh => hh.2 hsz.symm), if_pos]
     rw [hck, hashTruncate_open _ _ (hH c) hn, hashTruncate_idem]
   have hraw : ∀ a b, readerTakesRaw a b = decide (a = b) := by
     intro a b; unfold readerTakesRaw; rw [if_pos (by decide)]
@@ -248,6 +249,7 @@ theorem decodeChunk_stored (H : Bytes → Bytes) (hH : ∀ x, (H x).length = 64)
     | some p =>
       obtain ⟨algo, lvl⟩ := p
       simp only [Option.isSome_some, if_true]
-      rw [hsz, hcodec algo c, Option.bind_some]; exact hfin
+      rw [show decomp algo (comp c) d.sourceSize = some c from hsz ▸ hcodec algo c, Option.bind_some]
+      exact hfin
 
 end Bita.Proofs.WriterOpen
